@@ -174,6 +174,23 @@ def functionals(rep, tier, timeout):
 
 
 # ------------------------------------------------------------------------------------ atmosphere
+SI_UNITS = {"T": "K", "P": "Pa", "rho": "kg/m**3", "speed_of_sound": "m/s", "mu": "Pa*s", "v": "m/s", "re": "1/m"}
+R_GAS_SI = S(287.05)  # J/(kg K); 1716.49 ft lbf/(slug degR)
+
+
+def declared_units(comp):
+    """units each variable is declared in (what every consumer of the variable converts from)"""
+    return {n: m.get("units") for n, m in comp._var_rel2meta.items()}
+
+
+def to_si(units, name, value):
+    """value of `name`, declared in `units[name]`, expressed in SI by OpenMDAO's own conversion table"""
+    from openmdao.utils.units import unit_conversion
+
+    f, off = unit_conversion(units[name], SI_UNITS[name])
+    return (value + off) * f
+
+
 def atmos_stubs():
     import openaerostruct.common.atmos_comp as ac
 
@@ -228,13 +245,16 @@ def atmosphere(rep, tier, timeout, kinds=None):
                                           kind="deriv")))
         obs.append(oblig.Ob("p%d dv/dM" % pi, lhs=S(J[("v", "Mach_number")].ravel()[0]), rhs=a, assume=pa,
                             meta=dict(meta, out="v", family="AtmosComp dv/dMach == a", kind="ident")))
-        obs.append(oblig.Ob("p%d v=Ma" % pi, lhs=v, rhs=mach * a, assume=pa,
-                            meta=dict(meta, out="v", family="AtmosComp v == M a", kind="ident")))
+        # the relations between outputs are physical statements: each output is taken in the units it is *declared* in
+        # (that is what a consumer sees) and expressed in SI
+        U = declared_units(sc.comp)
+        Ts, Ps, rhos, as_, vs = (to_si(U, n, S(x)) for n, x in (("T", T), ("P", P), ("rho", rho), ("speed_of_sound", a), ("v", v)))
+        obs.append(oblig.Ob("p%d v=Ma" % pi, lhs=vs, rhs=mach * as_, assume=pa,
+                            meta=dict(meta, out="v", family="AtmosComp v == M a", kind="vMa")))
         # physical consistency (ideal gas, speed of sound), tolerance TAU chosen independently of the tree
-        P_psf = P * 144
-        obs.append(oblig.Ob("p%d gas law" % pi, cond=gt(fabs(P_psf - rho * R_GAS * T), const(TAU) * P_psf), assume=pa,
+        obs.append(oblig.Ob("p%d gas law" % pi, cond=gt(fabs(Ps - rhos * R_GAS_SI * Ts), const(TAU) * Ps), assume=pa,
                             meta=dict(meta, out="P", family="AtmosComp ideal gas |P - rho R T| <= 0.5% P", kind="gas")))
-        obs.append(oblig.Ob("p%d a^2=gRT" % pi, cond=gt(fabs(a * a - GAMMA * R_GAS * T), const(TAU) * a * a), assume=pa,
+        obs.append(oblig.Ob("p%d a^2=gRT" % pi, cond=gt(fabs(as_ * as_ - GAMMA * R_GAS_SI * Ts), const(TAU) * as_ * as_), assume=pa,
                             meta=dict(meta, out="speed_of_sound", family="AtmosComp a^2 = gamma R T within 0.5%", kind="sound")))
         obs.append(oblig.Ob("p%d positive" % pi, cond=bor(le(T, 0), le(P, 0), le(rho, 0), le(a, 0), le(mu, 0)), assume=pa,
                             meta=dict(meta, out="T", family="AtmosComp outputs positive", kind="pos")))
@@ -251,16 +271,20 @@ def atmosphere(rep, tier, timeout, kinds=None):
         h = env.get("altitude[0]")
         if h is None:
             return None, "no altitude in witness"
-        real = sc.real({"altitude": [h], "Mach_number": [env.get("Mach_number[0]", 0.5)]})
-        T, P, rho, a = (float(real[n][0]) for n in ("T", "P", "rho", "speed_of_sound"))
+        Mv = env.get("Mach_number[0]", 0.5)
+        real = sc.real({"altitude": [h], "Mach_number": [Mv]})
+        U = declared_units(sc.comp)
+        T, P, rho, a, v = (float(to_si(U, n, float(real[n][0]))) for n in ("T", "P", "rho", "speed_of_sound", "v"))
         kind = ob.meta.get("kind")
         if kind == "gas":
-            resid = abs(P * 144 - rho * 1716.49 * T) / (P * 144)
-            return resid > float(TAU), "altitude %.6g ft: P=%.6g psi, rho R T = %.6g psi, relative gas-law residual %.4g" % (
-                h, P, rho * 1716.49 * T / 144, resid)
+            resid = abs(P - rho * 287.05 * T) / P
+            return resid > float(TAU), "altitude %.6g ft: P=%.6g Pa, rho R T = %.6g Pa (declared units converted to SI), relative gas-law residual %.4g" % (
+                h, P, rho * 287.05 * T, resid)
         if kind == "sound":
-            resid = abs(a * a - 1.4 * 1716.49 * T) / (a * a)
-            return resid > float(TAU), "altitude %.6g ft: a^2 vs gamma R T relative residual %.4g" % (h, resid)
+            resid = abs(a * a - 1.4 * 287.05 * T) / (a * a)
+            return resid > float(TAU), "altitude %.6g ft: a = %.6g m/s (as declared), sqrt(gamma R T) = %.6g m/s, relative residual of a^2 %.4g" % (h, a, (1.4 * 287.05 * T) ** 0.5, resid)
+        if kind == "vMa":
+            return model.differs(v, Mv * a, 1e-9), "altitude %.6g ft, M = %.4g: v = %.9g m/s, M a = %.9g m/s (each in its declared units, converted to SI)" % (h, Mv, v, Mv * a)
         if kind == "pos":
             return min(T, P, rho, a) <= 0, "altitude %.6g: T,P,rho,a = %r" % (h, (T, P, rho, a))
         return None, "no numeric replay for kind %s" % kind
@@ -272,7 +296,7 @@ def atmosphere(rep, tier, timeout, kinds=None):
                     family=lambda ob: ob.meta["family"] + (" near %s" % _interval_name(ob, x) if ob.meta.get("kind") in ("gas", "sound") else ""),
                     box=(float(x[0]), float(x[-1])), max_replays=1, cut_threshold=0)
     rep.bounds["atmosphere_intervals"] = len(paths)
-    rep.assumptions.append("ideal-gas / speed-of-sound consistency tolerance tau = 0.5%% (R = 1716.49 ft lbf/slug/degR, gamma = 1.4, psi->psf x144)")
+    rep.assumptions.append("ideal-gas / speed-of-sound consistency tolerance tau = 0.5%% (R = 287.05 J/kg/K, gamma = 1.4; every output converted from its declared units to SI with OpenMDAO's unit table)")
 
 
 def _interval_name(ob, x):
@@ -474,9 +498,16 @@ def atmos_group_level(rep, tier, timeout):
     rng_ = [ge(alt[0], const(Fraction(34000))), lt(alt[0], const(Fraction(37000)))]
     GP = pipe.GroupPipe(prob, extra=extra)
     GP.run(external={"altitude": alt, "Mach_number": mach}, assumptions=rng_)
-    g = lambda n: S(np.asarray(GP.get(n), dtype=object).ravel()[0])
-    obs = [oblig.Ob("re == rho v / mu", lhs=g("re") * g("mu"), rhs=g("rho") * g("v"), assume=rng_, meta={"family": "Reynolds number per length is rho v / mu of the same group"}),
-           oblig.Ob("v == M a", lhs=g("v"), rhs=mach[0] * g("speed_of_sound"), assume=rng_, meta={"family": "v = Mach * speed of sound of the same group"})]
+    # every promoted output in the units it is declared in at the group level, expressed in SI
+    meta_out = prob.model._var_allprocs_abs2meta["output"]
+    U = {prob.model._resolver.abs2prom(a, "output"): m.get("units") for a, m in meta_out.items()}
+    g = lambda n: to_si(U, n, S(np.asarray(GP.get(n), dtype=object).ravel()[0]))
+    # (relative tolerance 1e-6: OpenMDAO's table of unit factors is itself only consistent to a few parts in 1e9)
+    rel = S(1e-6)
+    obs = [oblig.Ob("re == rho v / mu", cond=gt(fabs(g("re") * g("mu") - g("rho") * g("v")), rel * fabs(g("rho") * g("v"))), assume=rng_,
+                    meta={"family": "Reynolds number per length is rho v / mu of the same group"}),
+           oblig.Ob("v == M a", cond=gt(fabs(g("v") - mach[0] * g("speed_of_sound")), rel * fabs(g("v"))), assume=rng_ + [gt(mach[0], 0)],
+                    meta={"family": "v = Mach * speed of sound of the same group"})]
 
     def rp(ob, env):
         p2 = om.Problem(reports=False)
@@ -487,8 +518,8 @@ def atmos_group_level(rep, tier, timeout):
         p2.set_val("altitude", 35500.0)
         p2.set_val("Mach_number", 0.7)
         p2.run_model()
-        v_ = {n: float(p2.get_val(n)[0]) for n in ("re", "rho", "v", "mu", "speed_of_sound")}
-        bad = model.differs(v_["re"], v_["rho"] * v_["v"] / v_["mu"], 1e-9) or model.differs(v_["v"], 0.7 * v_["speed_of_sound"], 1e-9)
+        v_ = {n: float(p2.get_val(n, units=SI_UNITS[n])[0]) for n in ("re", "rho", "v", "mu", "speed_of_sound")}
+        bad = model.differs(v_["re"], v_["rho"] * v_["v"] / v_["mu"], 1e-6) or model.differs(v_["v"], 0.7 * v_["speed_of_sound"], 1e-6)
         return bad, "real AtmosGroup at 35 500 ft, M 0.7: re = %.9g, rho v / mu = %.9g, v = %.9g, M a = %.9g" % (v_["re"], v_["rho"] * v_["v"] / v_["mu"], v_["v"], 0.7 * v_["speed_of_sound"])
 
     run_obligations(rep, "real AtmosGroup: wiring", obs, timeout, replay=rp, levels=(1, 2), family=lambda ob: "AtmosGroup: " + ob.meta["family"],
